@@ -1413,6 +1413,9 @@ class ArgumentParser(ParserDeprecations, ActionsContainer, ArgumentLinking, argp
 
             if action is None or isinstance(action, _ActionSubCommands):
                 value = cfg[key]
+                if action is None and key.endswith("+"):
+                    with parser_context(parent_parser=self, lenient_check=True):
+                        value = ActionTypeHint.check_append_items(self, key, value)
                 if isinstance(value, dict):
                     value = Namespace(value)
                 if isinstance(value, Namespace):
